@@ -9,194 +9,231 @@ import (
 )
 
 const (
-	blT  = "gossip/basestream/basestreamleecher.BaseLeecher"
-	blCB = "gossip/basestream/basestreamleecher.Callbacks."
-	plT  = "gossip/basestream/basestreamleecher/basepeerleecher.BasePeerLeecher"
-	plP  = "gossip/basestream/basestreamleecher/basepeerleecher."
+	blT    = "gossip/basestream/basestreamleecher.BaseLeecher"
+	blCB   = "gossip/basestream/basestreamleecher.Callbacks."
+	blPkg  = "gossip/basestream/basestreamleecher"
+	plT    = "gossip/basestream/basestreamleecher/basepeerleecher.BasePeerLeecher"
+	plP    = "gossip/basestream/basestreamleecher/basepeerleecher."
+	plPkg  = "gossip/basestream/basestreamleecher/basepeerleecher"
+	plCB   = plP + "EpochDownloaderCallbacks."
+	plCfgP = plP + "EpochDownloaderConfig.ParallelChunksDownload"
 )
 
 func init() {
-	register("C18", "other", "T4 GuardedBy (normalised window test), T2 Dominates (peer removed before a session can start), T1 LockSet, T17 (close once)",
-		"Decides the flow-control and peer-removal shape: the peer leecher requests chunks only on the not-suspended edge, only while the download is not done, and only when requested < processed + parallelism, after which requested equals processed + parallelism and exactly the difference is requested; processed chunks are counted once when swept. The base leecher starts a session only when not terminated, no session is ongoing and candidates exist; in UnregisterPeer the peer is removed from the peer set before anything that can start a new session runs; Terminate sets the terminated flag before terminating the session; the exported methods hold the mutex (Routine is lock-required: checked at its call sites); the peer leecher closes its quit channel at most once under its mutex. What the application's session callbacks do is not decided.",
+	register("C18", "other", "T4 GuardedBy (normalised window test, through the call chains), T2 Dominates (peer removed before a session can start), T1 LockSet, T17 (close once)",
+		"Decides the flow-control and peer-removal shape: every RequestChunks call of the peer leecher is reached — on every call chain from an entry of the package — only on the not-suspended edge, only on the Done()==false edge, and only when requested < processed + parallelism, after which requested equals processed + parallelism and exactly the difference is requested; processed chunks are counted once, on the IsProcessed edge. Every StartSession call of the base leecher is reached only when not terminated, no session is ongoing and candidates exist; in UnregisterPeer the peer is removed from the peer set before anything that can start a new session runs; Terminate sets the terminated flag before terminating the session; the exported methods hold the mutex (Routine is lock-required: checked at its call sites); the peer leecher closes its quit channel at most once under its mutex. What the application's session callbacks do is not decided.",
 		[]string{"session callbacks (StartSession, SelectSessionPeerCandidates, ...) are opaque and may read the Peers set", "Routine() is called by embedding leechers only with Mu held (documented convention)"},
 		runC18)
+}
+
+// c18CallSites lists, per frame of the scope, the direct calls of the named callees.
+func c18CallSites(names ...string) func(*c17Frame) []core.Point {
+	return func(fr *c17Frame) []core.Point {
+		var out []core.Point
+		for _, cs := range fr.Calls() {
+			for _, n := range names {
+				if cs.Name == n {
+					out = append(out, cs.Pt)
+				}
+			}
+		}
+		return out
+	}
+}
+
+// c18CallFact: the fact says that a call of the named callback returned the given truth value.
+func c18CallFact(name string, truth bool) func(*core.FuncInfo) func(core.Fact) bool {
+	return func(g *core.FuncInfo) func(core.Fact) bool {
+		return func(ft core.Fact) bool {
+			e, t, ok := c17BoolFact(g.Info(), ft)
+			return ok && t == truth && isCallTo(g, e, name) != nil
+		}
+	}
 }
 
 func runC18(c *core.Ctx) {
 	p := c.P
 
 	c.Clause("C18.window", func() {
-		f := c.Fn(plT + ".tryToSync")
-		reqs := f.CallsTo(plP + "EpochDownloaderCallbacks.RequestChunks")
-		c.ExpectAtLeast("RequestChunks sites", len(reqs), 1)
-		namer := func(e ast.Expr) string {
-			switch fieldNameOf(f, e) {
-			case plT + ".totalRequested":
-				return "requested"
-			case plT + ".totalProcessed":
-				return "processed"
-			case plP + "EpochDownloaderConfig.ParallelChunksDownload":
-				return "P"
+		c.Fn(plT + ".Terminate") // anchor: the package is loaded
+		sc := c17PkgScope(p, plPkg)
+		namerOf := func(g *core.FuncInfo) core.AtomNamer {
+			return func(e ast.Expr) string {
+				switch fieldNameOf(g, e) {
+				case plT + ".totalRequested":
+					return "requested"
+				case plT + ".totalProcessed":
+					return "processed"
+				case plCfgP:
+					return "P"
+				}
+				return ""
 			}
-			return ""
 		}
-		for _, r := range reqs {
-			ok, wit := f.GuardedBy(r.Pt, func(ft core.Fact) bool {
-				return !ft.Truth && isCallTo(f, ft.Expr, plP+"EpochDownloaderCallbacks.Suspend") != nil
-			})
-			c.Check(ok, "no request while suspended", "T4 GuardedBy", r.Pos(), "RequestChunks is reached only on the Suspend()==false edge", "chunks can be requested while suspended: "+f.DescribePath(wit))
-			want := core.ParseLinCmp("requested - processed - P + 1 <= 0")
-			// locals holding parts of the comparison (target := processed + P) are looked through while current
-			ok2, wit2 := f.GuardedBy(r.Pt, func(ft core.Fact) bool {
-				lc, k := c18NormLinCmp(f, ft, namer)
+		want := core.ParseLinCmp("requested - processed - P + 1 <= 0")
+		// locals holding parts of the comparison (target := processed + P) are looked through while current
+		below := func(g *core.FuncInfo) func(core.Fact) bool {
+			return func(ft core.Fact) bool {
+				lc, k := c18NormLinCmp(g, ft, namerOf(g))
 				return k && lc.Equal(want)
-			})
-			c.Check(ok2, "request only below the window", "T4 GuardedBy", r.Pos(), "RequestChunks is reached only when requested < processed + ParallelChunksDownload", "chunks can be requested with the window already full: "+f.DescribePath(wit2))
-			// the amount requested: n = processed + P - requested; requested += n; RequestChunks(.., uint32(n))
-			nv := varOf(f, core.StripConv(f.Info(), r.Call.Args[2]))
-			okN := false
-			if nv != nil {
-				as := assignsToVar(f, nv)
-				if len(as) == 1 && as[0].RHS != nil {
-					// n's defining expression, evaluated where it is defined
-					okN = c18LinIs(c18LinAt(f, as[0].RHS, namer, as[0].Pt), map[string]int64{"processed": 1, "P": 1, "requested": -1})
+			}
+		}
+		amount := map[string]int64{"processed": 1, "P": 1, "requested": -1}
+		nReq := 0
+		hasReq := map[*core.FuncInfo]bool{}
+		for _, fr := range sc.Frames {
+			f := fr.F
+			namer := namerOf(f)
+			for _, r := range fr.Calls() {
+				if r.Name != plCB+"RequestChunks" || len(r.Call.Args) < 3 {
+					continue
 				}
-				// the counter is advanced by n (requested += n, requested = requested + n, or set to
-				// processed + P, which is the same value) before the call, and in no other way
-				namerN := func(e ast.Expr) string {
-					if varOf(f, e) == nv {
-						return "n"
-					}
-					return namer(e)
-				}
-				okInc, okOnly := false, true
-				for _, a := range assignsToField(f, plT+".totalRequested") {
-					good := false
-					switch a.Tok {
-					case token.ADD_ASSIGN:
-						good = a.RHS != nil && c18LinIs(c18LinAt(f, a.RHS, namerN, a.Pt), map[string]int64{"n": 1})
-					case token.ASSIGN:
-						if a.RHS != nil {
-							l := c18LinAt(f, a.RHS, namerN, a.Pt)
-							good = c18LinIs(l, map[string]int64{"requested": 1, "n": 1}) || c18LinIs(l, map[string]int64{"processed": 1, "P": 1})
+				nReq++
+				hasReq[f] = true
+				ok, why := sc.Guarded(fr, r.Pt, c18CallFact(plCB+"Suspend", false), false)
+				c.Check(ok, "no request while suspended", "T4 GuardedBy", r.Pos(), "RequestChunks is reached only on the Suspend()==false edge", "chunks can be requested while suspended: "+why)
+				ok, why = sc.Guarded(fr, r.Pt, c18CallFact(plCB+"Done", false), false)
+				c.Check(ok, "no request once the download is done", "T4 GuardedBy", r.Pos(), "on every call chain RequestChunks is reached only on the Done()==false edge", "requests continue after the download is reported done: "+why)
+				ok, why = sc.Guarded(fr, r.Pt, below, false)
+				c.Check(ok, "request only below the window", "T4 GuardedBy", r.Pos(), "RequestChunks is reached only when requested < processed + ParallelChunksDownload", "chunks can be requested with the window already full: "+why)
+				// the amount requested: n = processed + P - requested; requested += n; RequestChunks(.., uint32(n))
+				nv := varOf(f, core.StripConv(f.Info(), r.Call.Args[2]))
+				okN := false
+				if nv != nil {
+					as := assignsToVar(f, nv)
+					switch {
+					case len(as) == 1 && as[0].RHS != nil:
+						// n's defining expression, evaluated where it is defined
+						okN = c18LinIs(c18LinAt(f, as[0].RHS, namer, as[0].Pt), amount)
+					case len(as) == 0 && c18ParamIndex(f, nv) >= 0 && !fr.Root && len(fr.Callers) > 0:
+						// n is handed in: the argument of every call, evaluated at the call
+						okN = true
+						for _, cl := range fr.Callers {
+							pf, i := cl.Parent.F, c18ParamIndex(f, nv)
+							if cl.Detached || i >= len(cl.Site.Call.Args) || !c18LinIs(c18LinAt(pf, cl.Site.Call.Args[i], namerOf(pf), cl.Site.Pt), amount) {
+								okN = false
+							}
 						}
 					}
-					if !good {
-						okOnly = false
-						continue
+					// the counter is advanced by n (requested += n, requested = requested + n, or set to
+					// processed + P, which is the same value) before the call, and in no other way
+					namerN := func(e ast.Expr) string {
+						if varOf(f, e) == nv {
+							return "n"
+						}
+						return namer(e)
 					}
-					if o, _ := f.MustPassBefore([]core.Point{a.Pt}, r.Pt); o {
-						okInc = true
+					okInc, okOnly := false, true
+					for _, a := range assignsToField(f, plT+".totalRequested") {
+						good := false
+						switch a.Tok {
+						case token.ADD_ASSIGN:
+							good = a.RHS != nil && c18LinIs(c18LinAt(f, a.RHS, namerN, a.Pt), map[string]int64{"n": 1})
+						case token.ASSIGN:
+							if a.RHS != nil {
+								l := c18LinAt(f, a.RHS, namerN, a.Pt)
+								good = c18LinIs(l, map[string]int64{"requested": 1, "n": 1}) || c18LinIs(l, map[string]int64{"processed": 1, "P": 1})
+							}
+						}
+						if !good {
+							okOnly = false
+							continue
+						}
+						if o, _ := f.MustPassBefore([]core.Point{a.Pt}, r.Pt); o {
+							okInc = true
+						}
 					}
+					okN = okN && okInc && okOnly
 				}
-				okN = okN && okInc && okOnly
+				c.Check(okN, "window is filled exactly", "provenance", r.Pos(), "n = processed + P - requested is added to requested and exactly n chunks are requested", "the number of chunks requested does not match the bookkeeping (requested-but-unprocessed can exceed the parallelism limit)")
 			}
-			c.Check(okN, "window is filled exactly", "provenance", r.Pos(), "n = processed + P - requested is added to requested and exactly n chunks are requested", "the number of chunks requested does not match the bookkeeping (requested-but-unprocessed can exceed the parallelism limit)")
 		}
+		c.ExpectAtLeast("RequestChunks sites", nReq, 1)
 		// who else writes totalRequested
-		for _, g := range p.FuncsInPkg("gossip/basestream/basestreamleecher/basepeerleecher") {
-			if g != f && len(assignsToField(g, plT+".totalRequested")) > 0 {
-				c.Fail("totalRequested written in "+short(g.Name), "T6 WhoMayWrite", g.Pos(), "the request counter is modified outside tryToSync")
+		for _, fr := range sc.Frames {
+			if g := fr.F; !hasReq[g] && len(assignsToField(g, plT+".totalRequested")) > 0 {
+				c.Fail("totalRequested written in "+short(g.Name), "T6 WhoMayWrite", g.Pos(), "the request counter is modified in a function that does not issue the request")
 			}
 		}
-		// routine: Done() stops everything
-		rt := c.Fn(plT + ".routine")
-		for _, cs := range rt.CallsTo(plT + ".tryToSync") {
-			ok, wit := rt.GuardedBy(cs.Pt, func(ft core.Fact) bool {
-				return !ft.Truth && isCallTo(rt, ft.Expr, plP+"EpochDownloaderCallbacks.Done") != nil
-			})
-			c.Check(ok, "no request once the download is done", "T4 GuardedBy", cs.Pos(), "tryToSync is reached only on the Done()==false edge", "requests continue after the download is reported done: "+rt.DescribePath(wit))
-		}
-		c.ExpectAtLeast("tryToSync sites in routine", len(rt.CallsTo(plT+".tryToSync")), 1)
-		// tryToSync is called only from routine
-		for _, g := range p.FuncsInPkg("gossip/basestream/basestreamleecher/basepeerleecher") {
-			if g != rt && len(g.CallsTo(plT+".tryToSync")) > 0 {
-				c.Fail("tryToSync called in "+short(g.Name), "T6 WhoMayCall", g.Pos(), "tryToSync is reachable without the Done() test")
+		// the Done() edge terminates the peer leecher
+		terminated := func(fr *c17Frame) []core.Point { return sc.MustSites(fr, c18CallSites(plT+".Terminate")) }
+		nDone := 0
+		for _, fr := range sc.Frames {
+			rt := fr.F
+			for _, e := range edgesWithFact(rt, c18CallFact(plCB+"Done", true)(rt)) {
+				nDone++
+				_, found := core.PathQuery{F: rt, From: blockEntry(e.B.Succs[e.Succ]), Avoid: core.PointSet(terminated(fr)...), TargetExit: true}.Find()
+				c.Check(!found, "done => terminate", "T3 PostDominates", rt.Pos(), "the Done() edge always terminates the peer leecher", "the leecher keeps running after Done()")
 			}
 		}
-		// Done edge terminates
-		for _, e := range edgesWithFact(rt, func(ft core.Fact) bool {
-			return ft.Truth && isCallTo(rt, ft.Expr, plP+"EpochDownloaderCallbacks.Done") != nil
-		}) {
-			tm := core.Points(rt.CallsTo(plT + ".Terminate"))
-			_, found := core.PathQuery{F: rt, From: blockEntry(e.B.Succs[e.Succ]), Avoid: core.PointSet(tm...), TargetExit: true}.Find()
-			c.Check(!found, "done => terminate", "T3 PostDominates", rt.Pos(), "the Done() edge always terminates the peer leecher", "the leecher keeps running after Done()")
-		}
-		// sweep: processed counted on the IsProcessed edge, others kept
-		sw := c.Fn(plT + ".sweepProcessedChunks")
+		c.ExpectAtLeast("tests of Done()", nDone, 1)
+		// processed counted on the IsProcessed edge (re-tested for every chunk), by one
 		nInc := 0
-		for _, a := range assignsToField(sw, plT+".totalProcessed") {
-			nInc++
-			ok, _ := sw.GuardedBy(a.Pt, func(ft core.Fact) bool {
-				return ft.Truth && isCallTo(sw, ft.Expr, plP+"EpochDownloaderCallbacks.IsProcessed") != nil
-			})
-			// processed++ / processed += 1 / processed = processed + 1
-			byOne := a.Tok == token.INC
-			if a.RHS != nil {
-				swNamer := func(e ast.Expr) string {
-					if fieldNameOf(sw, e) == plT+".totalProcessed" {
-						return "processed"
+		for _, fr := range sc.Frames {
+			sw := fr.F
+			for _, a := range assignsToField(sw, plT+".totalProcessed") {
+				nInc++
+				ok, _ := sc.Guarded(fr, a.Pt, c18CallFact(plCB+"IsProcessed", true), true)
+				// processed++ / processed += 1 / processed = processed + 1
+				byOne := a.Tok == token.INC
+				if a.RHS != nil {
+					swNamer := func(e ast.Expr) string {
+						if fieldNameOf(sw, e) == plT+".totalProcessed" {
+							return "processed"
+						}
+						return ""
 					}
-					return ""
+					l := c18LinAt(sw, a.RHS, swNamer, a.Pt)
+					switch a.Tok {
+					case token.ADD_ASSIGN:
+						byOne = len(l.Coef) == 0 && l.C.IsInt64() && l.C.Int64() == 1
+					case token.ASSIGN:
+						byOne = len(l.Coef) == 1 && coefIs(l, "processed", 1) && l.C.IsInt64() && l.C.Int64() == 1
+					}
 				}
-				l := c18LinAt(sw, a.RHS, swNamer, a.Pt)
-				switch a.Tok {
-				case token.ADD_ASSIGN:
-					byOne = len(l.Coef) == 0 && l.C.IsInt64() && l.C.Int64() == 1
-				case token.ASSIGN:
-					byOne = len(l.Coef) == 1 && coefIs(l, "processed", 1) && l.C.IsInt64() && l.C.Int64() == 1
-				}
+				c.Check(ok && byOne, "processed counted once per processed chunk", "T4 GuardedBy", a.Stmt.Pos(), "totalProcessed++ on the IsProcessed edge, tested again for every chunk", "processed chunks are miscounted")
 			}
-			c.Check(ok && byOne, "processed counted once per processed chunk", "T4 GuardedBy", a.Stmt.Pos(), "totalProcessed++ on the IsProcessed edge; the chunk is dropped from the list there", "processed chunks are miscounted")
 		}
 		c.ExpectAtLeast("totalProcessed updates", nInc, 1)
 	})
 
 	c.Clause("C18.session", func() {
-		f := c.Fn(blT + ".Routine")
-		starts := f.CallsTo(blCB + "StartSession")
-		c.ExpectAtLeast("StartSession sites", len(starts), 1)
-		for _, s := range starts {
-			ok1, _ := f.GuardedBy(s.Pt, func(ft core.Fact) bool {
-				cm, k := core.NormCmp(ft)
-				return k && cm.R == nil && cm.Op == token.NEQ && fieldNameOf(f, cm.L) == blT+".Terminated"
-			})
-			c.Check(ok1, "no session after termination", "T4 GuardedBy", s.Pos(), "StartSession is reached only on the !Terminated edge", "a session can be started after Terminate()")
-			ok2, _ := f.GuardedBy(s.Pt, func(ft core.Fact) bool {
-				return !ft.Truth && isCallTo(f, ft.Expr, blCB+"OngoingSession") != nil
-			})
-			c.Check(ok2, "one session at a time", "T4 GuardedBy", s.Pos(), "StartSession is reached only on the !OngoingSession() edge", "a second session can be started while one is ongoing")
-			// candidates non-empty and passed on
-			cv := varOf(f, s.Call.Args[0])
-			ok3 := false
-			if cv != nil {
-				as := assignsToVar(f, cv)
-				if len(as) == 1 && as[0].RHS != nil && isCallTo(f, as[0].RHS, blCB+"SelectSessionPeerCandidates") != nil {
-					ok3, _ = f.GuardedBy(s.Pt, func(ft core.Fact) bool {
-						cm, k := core.NormCmp(ft)
-						if !k || cm.R == nil || cm.Op != token.NEQ {
-							return false
-						}
-						call := isCallTo(f, cm.L, "builtin.len")
-						return call != nil && varOf(f, call.Args[0]) == cv && core.IsConstInt(f.Info(), cm.R, 0)
-					})
+		c.Fn(blT + ".Routine") // anchor
+		sc := c17PkgScope(p, blPkg)
+		notTerminated := func(g *core.FuncInfo) func(core.Fact) bool {
+			return func(ft core.Fact) bool {
+				e, t, ok := c17BoolFact(g.Info(), ft)
+				return ok && !t && fieldNameOf(g, e) == blT+".Terminated"
+			}
+		}
+		n := 0
+		for _, fr := range sc.Frames {
+			for _, s := range fr.Calls() {
+				if s.Name != blCB+"StartSession" || len(s.Call.Args) < 1 {
+					continue
 				}
+				n++
+				ok1, why1 := sc.Guarded(fr, s.Pt, notTerminated, false)
+				c.Check(ok1, "no session after termination", "T4 GuardedBy", s.Pos(), "on every call chain StartSession is reached only on the !Terminated edge", "a session can be started after Terminate(): "+why1)
+				ok2, why2 := sc.Guarded(fr, s.Pt, c18CallFact(blCB+"OngoingSession", false), false)
+				c.Check(ok2, "one session at a time", "T4 GuardedBy", s.Pos(), "on every call chain StartSession is reached only on the !OngoingSession() edge", "a second session can be started while one is ongoing: "+why2)
+				// candidates non-empty and passed on (the list may be handed down through helpers, the
+				// emptiness test may be made at any level)
+				ok3 := c18Candidates(fr, s.Pt, s.Call.Args[0], false, 3)
+				c.Check(ok3, "session only with candidates", "T4 GuardedBy", s.Pos(), "StartSession gets the non-empty result of SelectSessionPeerCandidates", "a session can be started without candidates")
 			}
-			c.Check(ok3, "session only with candidates", "T4 GuardedBy", s.Pos(), "StartSession gets the non-empty result of SelectSessionPeerCandidates", "a session can be started without candidates")
 		}
-		// StartSession is invoked only from Routine
-		for _, g := range p.FuncsInPkg("gossip/basestream/basestreamleecher") {
-			if g != f && len(g.CallsTo(blCB+"StartSession")) > 0 {
-				c.Fail("StartSession called in "+short(g.Name), "T6 WhoMayCall", g.Pos(), "a session is started outside Routine (bypasses the terminated / ongoing tests)")
-			}
-		}
+		c.ExpectAtLeast("StartSession sites", n, 1)
 	})
 
 	c.Clause("C18.unreg", func() {
 		f := c.Fn(blT + ".UnregisterPeer")
+		sc := c17PkgScope(p, blPkg)
+		fr := sc.FrameOf(f)
+		c.Need(fr != nil, "UnregisterPeer is a function of the base leecher package")
 		peer := f.Param(0)
 		del := f.CallsMatching(func(cs *core.CallSite) bool {
-			return cs.Name == "builtin.delete" && fieldNameOf(f, cs.Call.Args[0]) == blT+".Peers" && varOf(f, cs.Call.Args[1]) == peer
+			return cs.Name == "builtin.delete" && fieldNameOf(f, cs.Call.Args[0]) == blT+".Peers" && c17SameVar(f, cs.Call.Args[1], peer)
 		})
 		c.Need(len(del) >= 1, "UnregisterPeer deletes the peer from Peers")
 		// every return passes the delete
@@ -207,14 +244,24 @@ func runC18(c *core.Ctx) {
 			}
 		}
 		c.Check(okDel, "peer is removed on every path", "T2 Dominates", f.Pos(), "delete(Peers, peer) dominates every return", "UnregisterPeer can return without removing the peer")
-		// anything that can start a session comes after the removal
+		// anything that can start a session (directly or in a callee) comes after the removal
 		n := 0
-		for _, cs := range f.CallsTo(blT+".Routine", blCB+"StartSession") {
+		for _, pt := range sc.MaySites(fr, c18CallSites(blCB+"StartSession")) {
 			n++
-			ok, wit := f.MustPassBefore(core.Points(del), cs.Pt)
-			c.Check(ok, "peer removed before a new session can start", "T2 Dominates", cs.Pos(),
-				"delete(Peers, peer) dominates the call of "+short(cs.Name),
-				short(cs.Name)+" runs while the peer being unregistered is still in the peer set: the session-start callbacks can pick it again, so a session with the unregistered peer is started; path "+f.DescribePath(wit))
+			what := "the call"
+			if call, ok := pt.Node().(*ast.CallExpr); ok {
+				what = short(calleeName(f, call))
+			} else {
+				for _, cs := range f.Calls() {
+					if cs.Pt == pt {
+						what = short(cs.Name)
+					}
+				}
+			}
+			ok, wit := f.MustPassBefore(core.Points(del), pt)
+			c.Check(ok, "peer removed before a new session can start", "T2 Dominates", posOf(pt),
+				"delete(Peers, peer) dominates the call of "+what,
+				what+" runs while the peer being unregistered is still in the peer set: the session-start callbacks can pick it again, so a session with the unregistered peer is started; path "+f.DescribePath(wit))
 		}
 		c.ExpectAtLeast("session-restart sites in UnregisterPeer", n, 1)
 		// an ongoing session with that peer is terminated
@@ -227,10 +274,10 @@ func runC18(c *core.Ctx) {
 					return false
 				}
 				l, r := cm.L, cm.R
-				if varOf(f, l) == peer {
+				if c17SameVar(f, l, peer) {
 					l, r = r, l
 				}
-				return isCallTo(f, l, blCB+"OngoingSessionPeer") != nil && varOf(f, r) == peer
+				return isCallTo(f, resolveLocal(f, l), blCB+"OngoingSessionPeer") != nil && c17SameVar(f, r, peer)
 			})
 			okT = okT && o
 		}
@@ -280,7 +327,7 @@ func runC18(c *core.Ctx) {
 		}
 		c.Check(okC, "peer leecher closes quit once", "T17 Typestate", pt.Pos(), "close(quit) only on the !done edge, paired with done = true, under quitMu", "the quit channel can be closed twice (panic) or without the latch")
 		// nobody else closes quit
-		for _, g := range p.FuncsInPkg("gossip/basestream/basestreamleecher/basepeerleecher") {
+		for _, g := range p.FuncsInPkg(plPkg) {
 			if g == pt {
 				continue
 			}
@@ -294,7 +341,7 @@ func runC18(c *core.Ctx) {
 
 	c.Clause("C18.lock", func() {
 		spec := core.LockSpec{
-			Pkgs: []string{"gossip/basestream/basestreamleecher"},
+			Pkgs: []string{blPkg},
 			Guarded: map[string]string{
 				c.Fld(blT + ".Peers"):      blT + ".Mu",
 				c.Fld(blT + ".Terminated"): blT + ".Mu",
@@ -312,9 +359,67 @@ func runC18(c *core.Ctx) {
 			nCalls++
 			c.Check(ci.State[blT+".Mu"] >= core.LWrite, "Routine called under Mu in "+short(ci.Caller.Name), "T1 LockSet", ci.Pos, "the caller holds Mu in write mode", "Routine() is called without Mu")
 		}
-		c.ExpectAtLeast("in-package call sites of Routine", nCalls, 2)
+		c.ExpectAtLeast("in-package call sites of Routine", nCalls, 1)
 	})
 	var _ *types.Var
+}
+
+// c18NonEmpty: the fact says that len(v) is not zero (len(v) != 0, len(v) > 0, len(v) >= 1, …).
+func c18NonEmpty(g *core.FuncInfo, v *types.Var) func(core.Fact) bool {
+	namer := func(e ast.Expr) string {
+		if call := isCallTo(g, e, "builtin.len"); call != nil && len(call.Args) == 1 && c17SameVar(g, call.Args[0], v) {
+			return "n"
+		}
+		return ""
+	}
+	ne, pos := core.ParseLinCmp("n != 0"), core.ParseLinCmp("1 - n <= 0")
+	return func(ft core.Fact) bool {
+		lc, ok := core.NormLinCmp(g.Info(), ft, namer)
+		return ok && (lc.Equal(ne) || lc.Equal(pos))
+	}
+}
+
+// c18Candidates decides that the value `arg` used at pt (in frame fr) is the result of
+// SelectSessionPeerCandidates and is known to be non-empty there: the variable is defined once by the
+// callback's call, or is a parameter that receives such a value at every call site; the emptiness test
+// guards the use in the frame itself or the call in a caller.
+func c18Candidates(fr *c17Frame, pt core.Point, arg ast.Expr, tested bool, depth int) bool {
+	f := fr.F
+	v := varOf(f, arg)
+	if v == nil {
+		return false
+	}
+	v = canonVar(f, v)
+	if ok, _ := fr.regionGuarded(pt, c18NonEmpty(f, v)); ok {
+		tested = true
+	}
+	as := assignsToVar(f, v)
+	if len(as) == 1 && as[0].RHS != nil && isCallTo(f, as[0].RHS, blCB+"SelectSessionPeerCandidates") != nil {
+		return tested
+	}
+	i := c18ParamIndex(f, v)
+	if len(as) != 0 || i < 0 || fr.Root || len(fr.Callers) == 0 || depth <= 0 {
+		return false
+	}
+	for _, cl := range fr.Callers {
+		if cl.Detached || i >= len(cl.Site.Call.Args) || !c18Candidates(cl.Parent, cl.Site.Pt, cl.Site.Call.Args[i], tested, depth-1) {
+			return false
+		}
+	}
+	return true
+}
+
+// c18ParamIndex returns the position of parameter v of g (-1 if v is not a parameter).
+func c18ParamIndex(g *core.FuncInfo, v *types.Var) int {
+	if v == nil || g.Type == nil || g.Type.Params == nil {
+		return -1
+	}
+	for i := 0; i < g.Type.Params.NumFields(); i++ {
+		if g.Param(i) == v {
+			return i
+		}
+	}
+	return -1
 }
 
 func coefIs(l *core.Lin, name string, v int64) bool {
